@@ -11,6 +11,9 @@
  R3 (K3c) the two filter routines agree field by field.
  R5 (K2) a binary search is only performed over a sequence that was sorted first (the
     sequencer's filtered-block endpoint filters requested ids against the block's sorted ids).
+ R6 (K2, shared with C09-Q4) conductor reconstruction: a header blob leaves the map only behind
+    the successful lookup-and-verify of the rollup blob that names it; blocks are built from
+    the blob's own rollup id and the verified header.
  R4 (K5) the Celestia split copies each rollup's own (id, transactions, proof) under the
     block's hash and lists exactly the ids of the rollup map; the conductor audits
     (rollup id || root(transactions)) with the blob's own proof against the metadata's root and
@@ -71,6 +74,11 @@ def run(prog, rep):
     r2(prog, rep)
     r3(prog, rep)
     r4(prog, rep)
+    # R6: the conductor's reconstruction hands out a header only after the rollup blob was
+    # verified against it, and an unverifiable blob does not consume the header (completeness:
+    # a forged blob ahead of the genuine one must not suppress the block) - rules shared with C09
+    import c09
+    c09.q4(prog, rep, rule="R6")
     r5(prog, rep)
 
 
